@@ -55,6 +55,19 @@ fn main() {
             driver::det_worker_main(&args[2..]);
             0
         }
+        Some("run-one") => {
+            // run the case generated for (property, run index) and print what happened
+            let prop = args.get(2).cloned().unwrap_or_default();
+            let idx: u64 = args.get(3).and_then(|s| s.parse().ok()).unwrap_or(0);
+            let seed = driver::run_seed(env_u64("VERIF_SEED").unwrap_or(driver::DEFAULT_SEED), &prop, idx);
+            let case = cases::gen_case(&prop, seed);
+            let r = minimize::run_case_isolated(&prop, &case, None);
+            println!("outcome={} profile={} steps={} discarded={:?} harness={:?}", r.outcome_class, r.profile, r.steps, r.discarded, r.harness_error);
+            for v in &r.violations {
+                println!("  [{}] {}: {}", v.property, v.class, v.detail);
+            }
+            0
+        }
         Some("show") => {
             // print the case generated for (property, run index)
             let prop = args.get(2).cloned().unwrap_or_default();
